@@ -389,7 +389,7 @@ func runC06(c *RunCtx) {
 			for _, bn2 := range []string{"sample.RootPacket", "sample.NestedPacket"} {
 				if t.Intn(2) == 0 || bn2 == "sample.NestedPacket" {
 					v := g.Value(bn2)
-					if nilNested(reflect.ValueOf(v).Elem(), schemaOf(bn2)) {
+					if nilNested(reflect.ValueOf(v).Elem(), schemaOf(bn2), t.Intn(3)) {
 						bad = v
 						break
 					}
